@@ -49,6 +49,7 @@ def main(ctx):
             for role in ("client", "server"):
                 jobs.append({"part": "transfer", "ext": ext, "role": role, "tier": tier})
         jobs.append({"part": "reject", "tier": tier})
+        jobs.append({"part": "rsvframes", "tier": tier})
         jobs.append({"part": "badoffer", "tier": tier})
         ctx.pmap({"fw": fw, "nvx": "1"}, "props.c12:job", jobs)
     ctx.coverage["states"] = int(ctx.counters["tuples"])
@@ -56,7 +57,8 @@ def main(ctx):
     ctx.coverage["traces_validated_against_impl"] = int(ctx.counters["evaluations"])
     ctx.coverage["distinct_nontrivial"] = int(ctx.counters["negotiated"])
     for n in ("tuples", "negotiated", "declined_by_ctor", "messages_checked", "transfer_execs",
-              "ext:deflate", "ext:bzip2", "ext:brotli", "prepared_messages", "reject_cases", "reject_refused",
+              "ext:deflate", "ext:bzip2", "ext:brotli", "prepared_messages", "streamed_messages",
+              "rsv_frame_cases", "reject_cases", "reject_refused",
               "valid_response_accepted", "badoffer_cases", "takeover_both", "no_takeover_seen",
               "small_window_seen"):
         ctx.require(n)
@@ -136,7 +138,7 @@ def job(a):
     from mc import worker
     env = worker.ENV
     return {"lattice": _job_lattice, "transfer": _job_transfer, "reject": _job_reject,
-            "badoffer": _job_badoffer}[a["part"]](a, env)
+            "badoffer": _job_badoffer, "rsvframes": _job_rsvframes}[a["part"]](a, env)
 
 
 def _viol(clause, label, detail, env, arg):
@@ -338,8 +340,9 @@ def _job_transfer(a, env):
     persig = {}
     evals = 0
     for vname, offer, s_accept, c_accept in _ext_objects(ext):
-        for fragsize in (None, 1, 7, 1000, "prepared"):      # "prepared": the prepared-message API
-            for dnc_idx in (None, 1):
+        # "prepared": the prepared-message API; "stream": beginMessage / sendMessageFrame / endMessage
+        for fragsize in (None, 1, 7, 1000, "prepared", "stream"):
+            for dnc_idx in ((None, 1, 0, 2) if fragsize == "stream" else (None, 1)):
                 use = seqs if (fragsize in (None, 7) and dnc_idx is None) or tier == "thorough" else seqs[::7]
                 for seq in use:
                     if fragsize == 1 and any(k == "big" for k in seq):
@@ -374,6 +377,13 @@ def _job_transfer(a, env):
                                 snd.proto.sendPreparedMessage(
                                     snd.proto.factory.prepareMessage(m, b, doNotCompress=dnc))
                                 stats["prepared_messages"] = stats.get("prepared_messages", 0) + 1
+                            elif fragsize == "stream":
+                                snd.proto.beginMessage(b, doNotCompress=dnc)
+                                half = len(m) // 2
+                                snd.proto.sendMessageFrame(m[:half])
+                                snd.proto.sendMessageFrame(m[half:])
+                                snd.proto.endMessage()
+                                stats["streamed_messages"] = stats.get("streamed_messages", 0) + 1
                             else:
                                 snd.proto.sendMessage(m, b, fragmentSize=fragsize, doNotCompress=dnc)
                             sent.append((m, b, dnc))
@@ -454,6 +464,70 @@ REJECT_CASES = [
     ("valid-quoted", 'permessage-deflate; server_max_window_bits="10"', None),
     ("leading-zero", "permessage-deflate; server_max_window_bits=010", None),
 ]
+
+
+def _job_rsvframes(a, env):
+    """frames that must not carry the compression bit: continuation frames (inside a compressed AND
+    inside an uncompressed message) and control frames - with every installed extension negotiated,
+    both roles; the connection is failed and nothing of the offending message is delivered.  Control:
+    the same frames with the bit where it belongs are delivered."""
+    import zlib
+    from harness import ws
+    from ref import ws_frames as F
+    stats = {"rsv_frame_cases": 0, "tuples": 0}
+    viol = []
+    evals = 0
+    for ext in ("deflate", "bzip2", "brotli"):
+        for vname, offer, s_accept, c_accept in _ext_objects(ext)[:1]:
+            for role in ("server", "client"):
+                mask = b"\x0a\x0b\x0c\x0d" if role == "server" else None
+                cases = [
+                    ("cont-rsv1-in-uncompressed-message", [F.encode(1, b"He", fin=False, mask=mask),
+                                                           F.encode(0, b"llo", rsv=4, mask=mask)], False),
+                    ("cont-rsv1-in-uncompressed-message-3", [F.encode(2, b"a", fin=False, mask=mask),
+                                                             F.encode(0, b"b", fin=False, mask=mask),
+                                                             F.encode(0, b"c", rsv=4, mask=mask)], False),
+                    ("ping-rsv1", [F.encode(9, b"p", rsv=4, mask=mask)], False),
+                    ("pong-rsv1", [F.encode(10, b"p", rsv=4, mask=mask)], False),
+                    ("close-rsv1", [F.encode(8, F.close_payload(1000, b""), rsv=4, mask=mask)], False),
+                    ("control-uncompressed-fragments", [F.encode(1, b"He", fin=False, mask=mask),
+                                                        F.encode(0, b"llo", mask=mask)], True),
+                ]
+                for name, frames, ok in cases:
+                    for coalesce in (True, False):
+                        pair = ws.Pair(copts={"perMessageCompressionOffers": [offer],
+                                              "perMessageCompressionAccept": c_accept},
+                                       sopts={"perMessageCompressionAccept": s_accept})
+                        pair.pump()
+                        rcv = pair.s if role == "server" else pair.c
+                        if rcv.proto._perMessageCompress is None:
+                            raise RuntimeError("harness: %s not negotiated" % ext)
+                        w0 = len(rcv.transport.written)
+                        if coalesce:
+                            rcv.feed(b"".join(frames))
+                        else:
+                            for fr in frames:
+                                rcv.feed(fr)
+                        rcv.settle()
+                        evals += 1
+                        stats["rsv_frame_cases"] += 1
+                        stats["tuples"] += 1
+                        got = [e for e in rcv.proto.rec if e[0] in ("onMessage", "onPing", "onPong")]
+                        failed = rcv.proto.state != 3 or bool(rcv.transport.calls)
+                        label = "%s/%s %s %s" % (ext, role, name, "one read" if coalesce else "frame by frame")
+                        if rcv.escapes if hasattr(rcv, "escapes") else False:
+                            viol.append(_viol("escape", "rsv-" + name, label + " " + repr(rcv.escapes[0])[:160], env, a))
+                        if ok:
+                            if failed or got != [("onMessage", b"Hello", False)]:
+                                viol.append(_viol("valid-frames-refused", "rsv-" + name,
+                                                  label + ": delivered %r state=%s" % (got, rcv.proto.state), env, a))
+                        else:
+                            if not failed or got:
+                                viol.append(_viol("compression-bit-accepted", "rsv-" + name,
+                                                  label + ": delivered %r, state=%s, transport calls %s (the frame "
+                                                  "must fail the connection)" % (got, rcv.proto.state, rcv.transport.calls),
+                                                  env, a))
+    return {"evals": evals, "viol": viol, "stats": stats, "samples": [{"part": "rsvframes", "cases": evals}]}
 
 
 def _job_reject(a, env):
